@@ -288,6 +288,8 @@ def impl_prim(case):
             return {"mask": [r1]}
         elif k == "minscalar":
             return {"rows": [], "dt": str(np.min_scalar_type(case["z"]))}
+        elif k == "fulltype":
+            return {"rows": [], "dt": str(np.full(1, case["z"]).dtype)}
         else:
             raise ValueError(k)
         if r.dtype.kind == "f":
@@ -632,6 +634,8 @@ def gen_prim_cases(tier, rng):
     for z in [0, 1, 127, 128, 255, 256, 65535, 65536, 2**31, 2**32 - 1, 2**32, 2**63, 2**64 - 1, -1, -128, -129, -32768,
               -32769, -2**31, -2**31 - 1, -2**63]:
         cases.append(dict(kind="minscalar", z=z))
+    for z in [0, 1, -1, 255, -2**31, 2**31, 2**32, 2**63 - 1, 2**63, 2**63 + 1, 2**64 - 4, 2**64 - 1, -2**63]:
+        cases.append(dict(kind="fulltype", z=z))
     return cases
 
 
@@ -811,6 +815,8 @@ def prim_literal(case, res):
         pc = f"(PAstype {t} {vlist(case['a'])})"
     elif k == "canstore":
         pc = f"(PCanStore {t} {vZ(case['z'])})"
+    elif k == "fulltype":
+        pc = f"(PFullType {vZ(case['z'])})"
     else:
         pc = f"(PMinScalar {vZ(case['z'])})"
     return vpair(pc, iout_literal(res))
